@@ -265,28 +265,96 @@ Proof.
 Qed.
 End Renderings.
 
-(* ---------- the two renderings without a universal theorem ----------
-   Patterns 2[7] and 2[8] start with a quote, then a run of non-quotes, then the key: the greedy run first swallows the key and the
-   matcher has to backtrack, so the first-attempt relation [gm] does not apply.  What is missing: soundness
-   of [m] w.r.t. the denoted language and completeness of [try_counts]; with them every successful parse is
-   forced by the four quotes of the rendering.  Both renderings are covered for all 35 keys by
-   C04_mask_whole_bounded and by the correspondence / oracle of the harness. *)
+(* ---------- the two renderings whose pattern backtracks (['"][^'"]*key…) ----------
+   proved with Proofs/C04_Quote.v: a match exists (completeness of the matcher for an explicit
+   parse) and every successful parse reads the same text (group 1 consumes a fixed number of quote
+   characters and ends in one). *)
+Require Import OV.Proofs.C11_Regex OV.Proofs.C04_Quote.
+
 Definition opt_u (u : str) : Prop := u = [] \/ u = [117] \/ u = [85].
 
+Lemma ci_disj_quotes :
+  forallb (fun c => cset_disj (ci_lookup gen_ci_table c) cs_quotes) key_alphabet = true.
+Proof. vm_compute. reflexivity. Qed.
+
+Lemma qcount_keyseq k rest : forallb key_char k = true ->
+  qcount cs_quotes (keyseq gen_ci_table k rest) = qcount cs_quotes rest.
+Proof.
+  induction k as [|c k IH]; intros Hk; [reflexivity|].
+  cbn [forallb] in Hk. apply andb_true_iff in Hk. destruct Hk as [Hc Hk].
+  pose proof ci_disj_quotes as T. rewrite forallb_forall in T. specialize (T c (key_char_in c Hc)).
+  cbn [keyseq qcount]. rewrite T, (IH Hk). destruct (qcount cs_quotes rest); reflexivity.
+Qed.
+Lemma last_q_keyseq Q tbl k rest : k <> [] \/ True -> last_q Q (keyseq tbl k rest) = last_q Q rest.
+Proof. intros _. induction k as [|c k IH]; [reflexivity|]. cbn [keyseq last_q]. exact IH. Qed.
+
+Lemma countq_casing k K : forallb key_char k = true -> casing_ok gen_ci_table k K -> countq cs_quotes K = 0%nat.
+Proof.
+  intros Hk H. induction H as [|c C k K Hc _ IH]; [reflexivity|].
+  cbn [forallb] in Hk. apply andb_true_iff in Hk. destruct Hk as [Hc1 Hk].
+  pose proof ci_disj_quotes as T. rewrite forallb_forall in T. specialize (T c (key_char_in c Hc1)).
+  rewrite countq_cons_n; [apply IH; exact Hk|]. apply (cset_disj_sound _ _ _ T Hc).
+Qed.
+
+Ltac mt_go :=
+  lazymatch goal with
+  | |- mt (Seq _ _) _ _ _ _ => eapply mt_seq; [mt_go | mt_go]
+  | |- mt (Group _ _) _ _ _ _ => apply mt_group; mt_go
+  | |- mt (keyseq _ _ _) _ _ _ _ => eapply mt_keyseq; [eassumption | mt_go]
+  | |- mt (Chr _) (?c :: _) _ _ _ => eapply mt_chr; tryif is_var c then eassumption else vmr
+  | |- mt (Rep _ _ _) _ _ _ _ => eapply mt_rep_run; [solve_allin | solve_len | solve_within]
+  end.
+
+Ltac norm_app2 := repeat first [rewrite <- app_assoc | progress (cbn [app])]; rewrite ?app_nil_r; reflexivity.
+
+Lemma opt_u_in u : opt_u u -> all_in [(85, 85); (117, 117)] u = true /\ (length u <= 1)%nat.
+Proof. intros [-> | [-> | ->]]; split; try reflexivity; cbn; repeat constructor. Qed.
+
+Section Renderings2.
+Variables (k K d : str).
+Hypothesis Hk : forallb key_char k = true.
+Hypothesis Hcase : casing_of k K.
+Hypothesis Hd : forallb ascii_digit d = true.
+
 (* '…k': u'v'  — any quote-free prefix inside the key string, optional u    [_FORMAT_PATTERNS_2[7]] *)
-Definition rendering_masked_json_prefix_full_statement : Prop :=
-  forall k K d, forallb key_char k = true -> casing_of k K -> forallb ascii_digit d = true ->
-  forall q1 pfx q2 w1 w2 u q3 q4 v mask,
+Lemma rendering_masked_json_prefix q1 pfx q2 w1 w2 u q3 q4 v mask :
   is_quote q1 = true -> is_quote q2 = true -> is_quote q3 = true -> is_quote q4 = true ->
   forallb quoted_char pfx = true -> forallb is_space w1 = true -> forallb is_space w2 = true -> opt_u u ->
   forallb quoted_char v = true ->
   re_sub (gen_tp2_7 k) (t2 mask) (q1 :: pfx ++ K ++ d ++ q2 :: w1 ++ 58 :: w2 ++ u ++ q3 :: v ++ [q4])
   = q1 :: pfx ++ K ++ d ++ q2 :: w1 ++ 58 :: w2 ++ u ++ q3 :: mask ++ [q4].
+Proof.
+  intros Hq1 Hq2 Hq3 Hq4 Hp Hw1 Hw2 Hu Hv.
+  pose proof (casing_ok_of k K Hk Hcase) as HK. pose proof (digits_in d Hd) as Hd'.
+  pose proof (spaces_in _ Hw1) as Hw1'. pose proof (spaces_in _ Hw2) as Hw2'.
+  pose proof (quote_in _ Hq1) as Hq1'. pose proof (quote_in _ Hq2) as Hq2'.
+  pose proof (quote_in _ Hq3) as Hq3'. pose proof (quote_in _ Hq4) as Hq4'.
+  pose proof (all_in_impl _ _ _ quoted_in Hp) as Hp'. pose proof (all_in_impl _ _ _ quoted_in Hv) as Hv'.
+  destruct (opt_u_in u Hu) as [Hu' Hul].
+  set (h := [q1] ++ pfx ++ K ++ d ++ [q2] ++ w1 ++ [58] ++ w2 ++ u ++ [q3]).
+  replace (q1 :: pfx ++ K ++ d ++ q2 :: w1 ++ 58 :: w2 ++ u ++ q3 :: v ++ [q4]) with (h ++ v ++ [q4]) by (unfold h; norm_app2).
+  replace (q1 :: pfx ++ K ++ d ++ q2 :: w1 ++ 58 :: w2 ++ u ++ q3 :: mask ++ [q4]) with (h ++ mask ++ [q4]) by (unfold h; norm_app2).
+  cbv [gen_tp2_7].
+  eapply (quote_delimited_sub cs_quotes) with (h0 := [q1] ++ pfx ++ K ++ d ++ [q2] ++ w1 ++ [58] ++ w2 ++ u) (q3 := q3).
+  - cbn [qcount]. rewrite (qcount_keyseq _ _ Hk). vm_compute. reflexivity.
+  - cbn [last_q]. rewrite last_q_keyseq by (right; exact I). vm_compute. reflexivity.
+  - vmr.
+  - vmr.
+  - replace (h ++ v ++ [q4]) with (q1 :: pfx ++ K ++ d ++ q2 :: w1 ++ 58 :: w2 ++ u ++ q3 :: v ++ [q4]) by (unfold h; norm_app2).
+    mt_go.
+  - unfold h. rewrite !countq_app.
+    rewrite (countq_one cs_quotes _ Hq1'), (countq_one cs_quotes _ Hq2'), (countq_one cs_quotes _ Hq3').
+    rewrite (countq_none cs_quotes _ _ Hp' ltac:(vmr)), (countq_casing _ _ Hk HK), (countq_none cs_quotes _ _ Hd' ltac:(vmr)).
+    rewrite (countq_none cs_quotes _ _ Hw1' ltac:(vmr)), (countq_none cs_quotes _ _ Hw2' ltac:(vmr)), (countq_none cs_quotes _ _ Hu' ltac:(vmr)).
+    reflexivity.
+  - unfold h. norm_app2.
+  - exact Hq3'.
+  - exact Hv'.
+  - exact Hq4'.
+Qed.
 
 (* 'k', '--flag', 'v'                                                        [_FORMAT_PATTERNS_2[8]] *)
-Definition rendering_masked_cmd1_full_statement : Prop :=
-  forall k K d, forallb key_char k = true -> casing_of k K -> forallb ascii_digit d = true ->
-  forall q1 pfx q2 w1 w2 dash fl w3 w4 u q3 q4 v mask,
+Lemma rendering_masked_cmd1 q1 pfx q2 w1 w2 dash fl w3 w4 u q3 q4 v mask :
   is_quote q1 = true -> is_quote q2 = true -> is_quote q3 = true -> is_quote q4 = true ->
   forallb quoted_char pfx = true -> forallb is_space w1 = true -> forallb is_space w2 = true ->
   (dash = [] \/ dash = [45]) -> all_in cs_flag fl = true -> (1 <= length fl)%nat ->
@@ -294,11 +362,43 @@ Definition rendering_masked_cmd1_full_statement : Prop :=
   re_sub (gen_tp2_8 k) (t2 mask)
     (q1 :: pfx ++ K ++ d ++ q2 :: w1 ++ 44 :: w2 ++ 39 :: 45 :: dash ++ fl ++ 39 :: w3 ++ 44 :: w4 ++ u ++ q3 :: v ++ [q4])
   = q1 :: pfx ++ K ++ d ++ q2 :: w1 ++ 44 :: w2 ++ 39 :: 45 :: dash ++ fl ++ 39 :: w3 ++ 44 :: w4 ++ u ++ q3 :: mask ++ [q4].
-
-(* bounded instances of both (fixed key and shape), by computation *)
-Lemma rendering_masked_json_prefix_partial :
-  re_sub (gen_tp2_7 (lit "password")) (t2 (lit "***")) (lit "'original_Password2' : u'a b=c'") = lit "'original_Password2' : u'***'".
-Proof. vm_compute. reflexivity. Qed.
-Lemma rendering_masked_cmd1_partial :
-  re_sub (gen_tp2_8 (lit "password")) (t2 (lit "***")) (lit "'--os-PASSWORD', '--x', u'a b'") = lit "'--os-PASSWORD', '--x', u'***'".
-Proof. vm_compute. reflexivity. Qed.
+Proof.
+  intros Hq1 Hq2 Hq3 Hq4 Hp Hw1 Hw2 Hdash Hfl Hlf Hw3 Hw4 Hu Hv.
+  pose proof (casing_ok_of k K Hk Hcase) as HK. pose proof (digits_in d Hd) as Hd'.
+  pose proof (spaces_in _ Hw1) as Hw1'. pose proof (spaces_in _ Hw2) as Hw2'.
+  pose proof (spaces_in _ Hw3) as Hw3'. pose proof (spaces_in _ Hw4) as Hw4'.
+  pose proof (quote_in _ Hq1) as Hq1'. pose proof (quote_in _ Hq2) as Hq2'.
+  pose proof (quote_in _ Hq3) as Hq3'. pose proof (quote_in _ Hq4) as Hq4'.
+  pose proof (all_in_impl _ _ _ quoted_in Hp) as Hp'. pose proof (all_in_impl _ _ _ quoted_in Hv) as Hv'.
+  destruct (opt_u_in u Hu) as [Hu' Hul].
+  assert (Hdash' : all_in [(45, 45)] dash = true) by (destruct Hdash as [-> | ->]; reflexivity).
+  assert (Hdl : (length dash <= 1)%nat) by (destruct Hdash as [-> | ->]; cbn; repeat constructor).
+  set (h := [q1] ++ pfx ++ K ++ d ++ [q2] ++ w1 ++ [44] ++ w2 ++ [39] ++ [45] ++ dash ++ fl ++ [39] ++ w3 ++ [44] ++ w4 ++ u ++ [q3]).
+  replace (q1 :: pfx ++ K ++ d ++ q2 :: w1 ++ 44 :: w2 ++ 39 :: 45 :: dash ++ fl ++ 39 :: w3 ++ 44 :: w4 ++ u ++ q3 :: v ++ [q4])
+    with (h ++ v ++ [q4]) by (unfold h; norm_app2).
+  replace (q1 :: pfx ++ K ++ d ++ q2 :: w1 ++ 44 :: w2 ++ 39 :: 45 :: dash ++ fl ++ 39 :: w3 ++ 44 :: w4 ++ u ++ q3 :: mask ++ [q4])
+    with (h ++ mask ++ [q4]) by (unfold h; norm_app2).
+  cbv [gen_tp2_8].
+  eapply (quote_delimited_sub cs_quotes)
+    with (h0 := [q1] ++ pfx ++ K ++ d ++ [q2] ++ w1 ++ [44] ++ w2 ++ [39] ++ [45] ++ dash ++ fl ++ [39] ++ w3 ++ [44] ++ w4 ++ u) (q3 := q3).
+  - cbn [qcount]. rewrite (qcount_keyseq _ _ Hk). vm_compute. reflexivity.
+  - cbn [last_q]. rewrite last_q_keyseq by (right; exact I). vm_compute. reflexivity.
+  - vmr.
+  - vmr.
+  - replace (h ++ v ++ [q4])
+      with (q1 :: pfx ++ K ++ d ++ q2 :: w1 ++ 44 :: w2 ++ 39 :: 45 :: dash ++ fl ++ 39 :: w3 ++ 44 :: w4 ++ u ++ q3 :: v ++ [q4])
+      by (unfold h; norm_app2).
+    mt_go.
+  - unfold h. rewrite !countq_app.
+    rewrite (countq_one cs_quotes _ Hq1'), (countq_one cs_quotes _ Hq2'), (countq_one cs_quotes _ Hq3').
+    rewrite (countq_none cs_quotes _ _ Hp' ltac:(vmr)), (countq_casing _ _ Hk HK), (countq_none cs_quotes _ _ Hd' ltac:(vmr)).
+    rewrite (countq_none cs_quotes _ _ Hw1' ltac:(vmr)), (countq_none cs_quotes _ _ Hw2' ltac:(vmr)), (countq_none cs_quotes _ _ Hu' ltac:(vmr)).
+    rewrite (countq_none cs_quotes _ _ Hw3' ltac:(vmr)), (countq_none cs_quotes _ _ Hw4' ltac:(vmr)).
+    rewrite (countq_none cs_quotes _ _ Hdash' ltac:(vmr)), (countq_none cs_quotes _ _ Hfl ltac:(vmr)).
+    reflexivity.
+  - unfold h. norm_app2.
+  - exact Hq3'.
+  - exact Hv'.
+  - exact Hq4'.
+Qed.
+End Renderings2.
